@@ -1,7 +1,8 @@
 (* C11 — The gRPC client is indistinguishable from the inline client.
    THIS REVISION: the error-class and isolation-level mapping (DESIGN.md C11 part (a)):
    "Every error the server can produce maps to the same sentinel on the client side",
-   "all four isolation levels".  Streaming and whole client histories are added later.
+   "all four isolation levels".  Streaming: C11_same_content_both_clients at the end of the file (models Stream.v,
+   RW.v, Faults.v); whole client histories are compared by the correspondence run.
 
    Statements only; every proof is [exact <lemma of ErrMapProofs>].
    Vocabulary (coq/ErrMap.v, coq/ErrMapInst.v):
@@ -182,3 +183,21 @@ Print Assumptions C11_level_roundtrip.
 Print Assumptions C11_level_roundtrip_grpc.
 Print Assumptions C11_level_out_of_range.
 Print Assumptions C11_is_means_occurs.
+
+(* ---------- streaming: the same content through both clients ---------- *)
+From Coq Require Import Arith NArith.
+From FsDb Require Import Faults RW Stream StreamProofs Upload.
+Close Scope N_scope.
+
+(* an inline SetReader whose reader yields the pieces ws, and an external Create / SetReader that writes the same pieces
+   (client stream writer with any chunk size cs, server upload reader with any buffer length n), store the same bytes
+   whenever both are stored - whatever the fault plans and root orders on either side *)
+Theorem C11_same_content_both_clients :
+  forall cs (ws : list (list RW.byte)) n fuel src buf1 order1 r1 c1 buf2 order2 r2 c2,
+    1 <= cs -> 0 < n ->
+    res_out (set_run (store_fixed buf1) order1 (map Data ws)) = Stored r1 c1 ->
+    sr_source false n fuel (sr_init (writer_chunks cs ws) false) = Some src ->
+    res_out (set_run (store_fixed buf2) order2 src) = Stored r2 c2 ->
+    c1 = c2.
+Proof. exact same_content_both_clients. Qed.
+Print Assumptions C11_same_content_both_clients.
